@@ -11,7 +11,7 @@ Driver lanes of C10.
 `c10run <variant> <clientOps> <reqOps> <conds> <hooks> <after> <script> <backoffObs>
         <c.cookies> <c.headers> <c.form> <c.query> <c.allowGet>
         <method> <url> <cookies> <headers> <form> <ordered> <query> <multipart> <files> <body>
-        <resend> <ivx> <rawQuery> <pathParams> <c.pathParams> <c.baseURL> <c.scheme> <setCookies> <dumpObs> <traceObs> <bodyObs>`
+        <resend> <ivx> <rawQuery> <pathParams> <c.pathParams> <c.baseURL> <c.scheme> <setCookies> <dumpObs> <traceObs> <bodyObs> <pre>`
 (`<dumpObs>`/`<traceObs>`: `1` the lane observes the dump / trace of the returned response, else `-`)
 (`<url>` is a template: `a<origin>|<segs>` absolute, `s<authority>|<segs>` without scheme, `r|<segs>`
 relative; `<segs>` = `l<hex>` literal / `p<hex>` `{placeholder}`, comma separated; `<setCookies>` =
@@ -160,6 +160,10 @@ inductive HookAct
   | addCookie (n v : Bytes)
   | setQuery (k v : Bytes)
   | setBody (b : Bytes)
+  /-- `SetBody(io.Reader)` while the call is in flight: the body KIND changes (round 5) -/
+  | setReader (b : Bytes)
+  /-- `SetFileReader("hp", "h.txt", <reader that cannot be rewound>)` while the call is in flight -/
+  | addStream (b : Bytes)
 
 def HookAct.apply (a : HookAct) (_ : Obs) (st : ReqState) : ReqState :=
   match a with
@@ -168,6 +172,9 @@ def HookAct.apply (a : HookAct) (_ : Obs) (st : ReqState) : ReqState :=
   | .addCookie n v => { st with cookies := st.cookies ++ [(n, v)] }
   | .setQuery k v => { st with query := put st.query k [v] }
   | .setBody b => { st with body := .bytes b }
+  | .setReader b => { st with body := .reader b false }
+  | .addStream b =>
+    { st with multipart := true, files := st.files ++ [⟨ofStr "hp", ofStr "h.txt", [], .stream b false⟩] }
 
 def decHook (s : String) : Option HookAct :=
   let rest := dropS s 1
@@ -177,6 +184,21 @@ def decHook (s : String) : Option HookAct :=
   | "K" => (decPair rest).map fun p => .addCookie p.1 p.2
   | "Q" => (decPair rest).map fun p => .setQuery p.1 p.2
   | "B" => (decodeHex rest).map .setBody
+  | "R" => (decodeHex rest).map .setReader
+  | "F" => (decodeHex rest).map .addStream
+  | _ => none
+
+/-- `-` or `R<hex>@<j>` / `F<hex>@<j>`: the caller's `OnBeforeRequest` middleware (it runs before the
+built-in ones) changes the body kind when it sees attempt number `j`. -/
+def decPre (s : String) : Option (Nat → ReqState → ReqState) :=
+  if s == "-" then some fun _ st => st else
+  match s.splitOn "@" with
+  | [a, j] => do
+    let act ← decHook a
+    let j ← j.toNat?
+    match act with
+    | .setReader _ | .addStream _ => pure fun ra st => if ra == j then act.apply ⟨ra, .absent, none⟩ st else st
+    | _ => none
   | _ => none
 
 structure HookStub where
@@ -220,6 +242,8 @@ def decFile (s : String) : Option FileUp :=
       | "s" => some (FileSrc.seeker content false)
       | "r" => some (FileSrc.stream content false)
       | "o" => some (FileSrc.closer content false)
+      | "k" => some (FileSrc.shared content true false)
+      | "q" => some (FileSrc.shared content false false)
       | _ => none
     pure ⟨← decodeHex p, ← decodeHex n, ← decodeHex ct, src⟩
   | _ => none
@@ -468,7 +492,7 @@ def laneRun (showWire : Bool) : List String → String
   | v :: cops :: rops :: conds :: hooks :: after :: script :: bobs ::
      [cck, chd, cfm, cq, cag,
      method, url, ck, hd, fm, ord, q, mp, files, body, resend, ivx,
-     rawq, pp, cpp, cbase, cscheme, sets, dumpObs, traceObs, bodyObs] =>
+     rawq, pp, cpp, cbase, cscheme, sets, dumpObs, traceObs, bodyObs, pre] =>
     let r : Option String := do
       let v ← decVariant v
       let ro := effective (← decSetters cops) (← decSetters rops)
@@ -488,7 +512,9 @@ def laneRun (showWire : Bool) : List String → String
         ← decPairs ck, ← decMulti hd, ← decMulti fm,
         ← decPairs ord, ← decMulti q, ← decBool mp, ← decFiles files, ← decBody body⟩
       let sets ← decSets sets
-      let sends := dsends v p ed (mw v cfg) (unreplayable v) resend script 0 st (dynOf p)
+      let pre ← decPre pre
+      -- the caller's middleware first, then the built-in chain
+      let sends := dsends v p ed (fun ra s => mw v cfg ra (pre ra s)) (unreplayable v) resend script 0 st (dynOf p)
       pure (" ".intercalate (encSends showWire sets script dumpObs traceObs bodyObs sends bobs 0))
     r.getD "bad-op"
   | _ => "bad-op"
